@@ -47,6 +47,7 @@ func c01pWire(c *core.Ctx, k c01pCase, res []c01pResult, view *sim.World) {
 		c01pLeanDecodeAll(c, k, view, streams)
 	}
 	if k.API {
+		c01EarlyWire(c, k, bySid)
 		return
 	}
 	for i, r := range res {
